@@ -32,6 +32,9 @@ func (cx *Ctx) footprintOf(mods []string) []string {
 	for _, m := range mods {
 		entries := cx.entriesOfModule(m, "msg", "abci", "callback", "hook", "ante")
 		cx.forEachEvent(entries, nil, func(e *Entry, w *Walker, ev *Event) {
+			if ev.Note == "double-prefix" {
+				set["!double-prefix|"+entryKey(e)+"|"+ev.Kind+"|"+strings.Join(ev.Prefix, ",")+"|"+cx.P.Pos(ev.Site.Pos())] = true
+			}
 			switch {
 			case ev.Kind == "store.set" || ev.Kind == "store.delete":
 				for _, px := range ev.Prefix {
@@ -93,6 +96,11 @@ func (cx *Ctx) footprintRule(r *Report, mods []string, rule string) {
 	}
 	n := 0
 	for _, el := range cur {
+		if strings.HasPrefix(el, "!double-prefix|") {
+			p := strings.Split(el, "|")
+			r.violate("key-prefixed-once", strings.Join(p[1:4], "|"), p[len(p)-1], "entry "+p[1]+": a "+p[2]+" on a prefix store is given a key that already starts with the store's own prefix ("+p[3]+"): the store prepends the prefix again, so the access goes to a key range that no writer of the table uses - a scan finds nothing, a read misses, a write is never found again")
+			continue
+		}
 		if frozen[el] {
 			n++
 			continue
